@@ -204,6 +204,45 @@ pub fn judge_lax(
     }
 }
 
+/// "records the fault": when strict parsing fails behind the first header on exactly the fault the
+/// lax decoder stops at, and that fault has a single truthful description, the recorded stop error
+/// has to be the error strict parsing reports (two different records of one single-description
+/// fault cannot both be right).
+fn same_fault_same_record(rep: &mut Report, name: &str, bytes: &[u8], rs: &RDecoded, rl: &RDecoded, strict_err: &NErr, lax_stop: &NErr) {
+    let (fs, fl) = match (&rs.fault, &rl.fault) {
+        (Some(a), Some(b)) => (a, b),
+        _ => return,
+    };
+    if fs.kind != fl.kind || fs.off != fl.off || fs.admissible.len() != 1 || fl.admissible.len() != 1 {
+        return;
+    }
+    if format!("{:?}", fs.admissible) != format!("{:?}", fl.admissible) {
+        return;
+    }
+    // several admissible length sources (an enclosing limit that coincides with the slice end) leave
+    // the two decoders a choice
+    if let crate::refmodel::pkt::Admissible::Len { srcs, .. } = &fl.admissible[0] {
+        if srcs.count_ones() != 1 {
+            return;
+        }
+    }
+    if strict_err == lax_stop {
+        rep.count("stop_error_equals_strict_error");
+    } else {
+        rep.violation(
+            &format!("lax_stop_error_differs_from_strict|{}|{:?}|{}", name, fl.kind, lax_stop.class()),
+            format!(
+                "{}: strict parsing reports {:?}, lax parsing records {:?} for the same fault: {}",
+                name,
+                strict_err,
+                lax_stop,
+                fl.describe()
+            ),
+            bytes,
+        );
+    }
+}
+
 impl C05 {
     fn pair(&mut self, rep: &mut Report, case: &Case, strict_f: Family, lax_f: Family) {
         if !lax_f.supports(case.start) {
@@ -220,15 +259,21 @@ impl C05 {
             }
         };
         let ext = if lax_f.is_struct() { ExtMode::Struct } else { ExtMode::Slice };
+        let r = rdecode(&case.bytes, case.start, Mode::Lax, ext);
         // (a) lax vs strict of the same family
         if strict_f.supports(case.start) {
             match run_family(strict_f, case.start, &case.bytes, false) {
-                Ok(s) => self.vs_strict(rep, name, case, &s.whole, &lax),
+                Ok(s) => {
+                    self.vs_strict(rep, name, case, &s.whole, &lax);
+                    if let (Some(se), Some((le, _))) = (&s.whole.out.err, &lax.out.stop) {
+                        let rs = rdecode(&case.bytes, case.start, Mode::Strict, ext);
+                        same_fault_same_record(rep, name, &case.bytes, &rs, &r, se, le);
+                    }
+                }
                 Err(p) => note_abnormal(rep, strict_f.name(case.start), &p),
             }
         }
         // (b) lax vs reference
-        let r = rdecode(&case.bytes, case.start, Mode::Lax, ext);
         let always_ok = matches!(case.start, Start::EtherType(_));
         judge_lax(rep, name, &case.bytes, &r, &lax.out, &lax.pay, lax_f.is_struct(), always_ok);
         if nontrivial(&lax.out) {
@@ -354,6 +399,12 @@ impl C05 {
                 r.payload = p;
             }
             judge_lax(rep, lax_e.name(), bytes, &r, &l.out, &l.pay, lax_e.is_struct(), false);
+            if let (Some(s), Some(se)) = (&s, strict_e) {
+                if let (Some(serr), Some((lerr, _))) = (&s.out.err, &l.out.stop) {
+                    let rs = rdecode(bytes, se.start(), Mode::Strict, se.ext_mode());
+                    same_fault_same_record(rep, lax_e.name(), bytes, &rs, &r, serr, lerr);
+                }
+            }
             if let Some(s) = s {
                 if s.out.err.is_none() {
                     rep.count("strict_ok_cases");
